@@ -70,6 +70,8 @@ import PdshVerif.Opt.Table
 import PdshVerif.Opt.Command
 import PdshVerif.Props.C03
 import PdshVerif.Opt.Use
+import PdshVerif.Opt.UseTimed
+import PdshVerif.Props.C07
 
 namespace PdshVerif.C18
 open PdshVerif PdshVerif.Opt
@@ -1234,6 +1236,108 @@ theorem main_witnesses :
       (words ["-w", "h", "ls"])) = some "/p".toList ∧
     exitOf (mainPlan Fixes.all d0 .dsh [] (words ["-w", "h", "-e", "/x", "ls"])) = some 1 ∧
     exitOf (mainPlan Fixes.all d0 .pdcp [] (words ["-w", "h", "-S", "a", "b"])) = some 1 := by
+  decide
+
+/-! ## the time-outs and the remote pdcp path where they take effect -/
+
+/-- TIME-OUTS IN FORCE, composed with the timed model of C07 (Dsh/Timed.lean, by import of `C07.connect_deadline`,
+    `C07.command_deadline`, `C07.unlimited_never_interrupted`): in an accepted run (repaired d4 d5 atoi) the two limits
+    are natural numbers `ct`, `ut` that are exactly what the text in force denotes — command line, else environment —
+    or the built-in default (10 s, resp. none), and for the timed system started WITH THESE numbers — every variant of
+    the dispatcher, every fanout, every vector of scripted hosts, every reachable state — a target that is still
+    connecting is at most `ct + WDOG_POLL` seconds past its start, a running command at most `ut + WDOG_POLL` seconds
+    past its connect, and a limit of 0 never interrupts anything.  The accepted settings of C18 are the parameters
+    C07's theorems are about. -/
+theorem timeouts_in_force {fx : Fixes} {d : Defaults} {p : Pers} {env : Env} {argv : List Str} {c : Cfg}
+    (hd4 : fx.d4 = true) (hd5 : fx.d5 = true) (hat : fx.atoi = true)
+    (h : effective fx d p env argv = .ok c) (hl : d.luser.length ≤ d.loginMax)
+    (hplain : c.pcpServer = false ∧ c.pcpClient = false) :
+    ∃ ct ut : Nat, (ct : Int) = c.connectTimeout ∧ (ut : Int) = c.commandTimeout ∧
+      (∀ t, chosenText (getopt (fullString d p) argv).1 env 't' "PDSH_CONNECT_TIMEOUT" = some t →
+        CInt.denotes t = some (ct : Int)) ∧
+      (chosenText (getopt (fullString d p) argv).1 env 't' "PDSH_CONNECT_TIMEOUT" = none → (ct : Int) = CONNECT_TIMEOUT) ∧
+      (∀ t, chosenText (getopt (fullString d p) argv).1 env 'u' "PDSH_COMMAND_TIMEOUT" = some t →
+        CInt.denotes t = some (ut : Int)) ∧
+      (chosenText (getopt (fullString d p) argv).1 env 'u' "PDSH_COMMAND_TIMEOUT" = none → ut = 0) ∧
+      ∀ (sopt sc sw : Bool) (v : Dsh.Fan.Variant) (f : Nat) (scripts : List Dsh.Timed.Script) (s : Dsh.Timed.St),
+        Dsh.Timed.Reach v f (timedCfg c sopt sc sw) scripts s → ∀ j, j < s.hs.length →
+          ((s.host j).ph = .connecting → 0 < ct → s.now ≤ (s.host j).start + ct + Dsh.Timed.WDOG_POLL) ∧
+          ((s.host j).ph = .reading → 0 < ut → s.now ≤ (s.host j).conn + ut + Dsh.Timed.WDOG_POLL) ∧
+          ((s.host j).ph = .connecting → ct = 0 → (s.host j).intr = false) ∧
+          ((s.host j).ph = .reading → ut = 0 → (s.host j).intr = false) := by
+  obtain ⟨_, _, hct, hctt, hut, hutt, _, _⟩ := rejected hd4 hd5 hat h hl hplain
+  obtain ⟨_, p2, p3, _, _, _, _⟩ := precedence h
+  refine ⟨c.connectTimeout.toNat, c.commandTimeout.toNat, by omega, by omega, ?_, ?_, ?_, ?_, ?_⟩
+  · intro t ht
+    rw [hctt t ht]
+    congr 1
+    omega
+  · intro hn
+    rw [Int.toNat_of_nonneg hct, p2]
+    unfold chosenText at hn
+    cases h1 : lastArg 't' (getopt (fullString d p) argv).1 <;> cases h2 : getenv env "PDSH_CONNECT_TIMEOUT" <;>
+      simp [h1, h2] at hn
+    simp [pick, h1, h2]
+  · intro t ht
+    rw [hutt t ht]
+    congr 1
+    omega
+  · intro hn
+    have : c.commandTimeout = 0 := by
+      rw [p3]
+      unfold chosenText at hn
+      cases h1 : lastArg 'u' (getopt (fullString d p) argv).1 <;> cases h2 : getenv env "PDSH_COMMAND_TIMEOUT" <;>
+        simp [h1, h2] at hn
+      simp [pick, h1, h2]
+    omega
+  · intro sopt sc sw v f scripts s hr j hj
+    have hcfg := timed_reach_cfg hr
+    have e1 : s.cfg.ct = c.connectTimeout.toNat := by rw [hcfg]; rfl
+    have e2 : s.cfg.ut = c.commandTimeout.toNat := by rw [hcfg]; rfl
+    refine ⟨fun hph hpos => ?_, fun hph hpos => ?_, fun hph hz => ?_, fun hph hz => ?_⟩
+    · have := Props.C07.connect_deadline hr hj hph (by rw [e1]; exact hpos)
+      rwa [e1] at this
+    · have := Props.C07.command_deadline hr hj hph (by rw [e2]; exact hpos)
+      rwa [e2] at this
+    · exact (Props.C07.unlimited_never_interrupted hr hj).2 hph (by rw [e1]; exact hz)
+    · exact (Props.C07.unlimited_never_interrupted hr hj).1 hph (by rw [e2]; exact hz)
+
+/-- REMOTE PROGRAM IN FORCE, composed with the command builders of C11 (Pcp/Send.lean: `pdcpCmd`, `rpdcpCmd`, the
+    strings dsh() assembles for a copy and which C11's end-to-end runs compare with the real ones): in an accepted
+    pdcp / rpdcp run the program EVERY target is asked to execute — the first word of the command line the remote shell
+    gets — is the text of the last -e, else of PDSH_REMOTE_PDCP_PATH, else the program's own path, whatever the other
+    options (-r -p, the number of sources, the destination) and wherever -e stands.  (A path without blanks; a blank
+    would split it for the remote shell: C09/C11's business.) -/
+theorem remote_program_in_force {fx : Fixes} {d : Defaults} {p : Pers} {env : Env} {argv : List Str} {c : Cfg}
+    (h : effective fx d p env argv = .ok c) (hp : p.isPcp = true) (hb : Pcp.cSp ∉ bytes c.remotePath) :
+    c.remotePath = pick (lastArg 'e' (getopt (fullString d p) argv).1) (getenv env "PDSH_REMOTE_PDCP_PATH") d.progPath ∧
+    (∀ (r pp : Bool) (n : Nat) (dest : Pcp.Str), firstWord (copyCommand c r pp n dest) = bytes c.remotePath) ∧
+    (∀ (r pp : Bool) (files : List Pcp.Str) (host : Pcp.Str),
+      firstWord (reverseCopyCommand c r pp files host) = bytes c.remotePath) := by
+  obtain ⟨_, _, _, _, _, _, p7⟩ := precedence h
+  rw [hp] at p7
+  refine ⟨p7, fun r pp n dest => ?_, fun r pp files host => ?_⟩
+  · unfold copyCommand Pcp.pdcpCmd
+    simp only [List.append_assoc]
+    apply firstWord_append _ _ hb
+    cases r <;> cases pp <;> by_cases hn : 1 < n <;> simp [hn, strBytes_r, strBytes_p, strBytes_y, strBytes_z, Pcp.cSp]
+  · unfold reverseCopyCommand Pcp.rpdcpCmd
+    simp only [List.append_assoc]
+    apply firstWord_append _ _ hb
+    cases r <;> cases pp <;> simp [strBytes_r, strBytes_p, strBytes_Z, Pcp.cSp]
+
+/-- the hypotheses are satisfiable, and the three sources are told apart: -e over the variable over the own path -/
+theorem remote_program_witnesses :
+    pathOf (mainPlan Fixes.all d0 .pdcp [("PDSH_REMOTE_PDCP_PATH".toList, "/env/pdcp".toList)]
+      (words ["-w", "h", "-e", "/cmd/pdcp", "a", "b"])) = some "/cmd/pdcp".toList ∧
+    pathOf (mainPlan Fixes.all d0 .pdcp [("PDSH_REMOTE_PDCP_PATH".toList, "/env/pdcp".toList)]
+      (words ["-e", "/first", "-w", "h", "-e", "/cmd/pdcp", "a", "b"])) = some "/cmd/pdcp".toList ∧
+    pathOf (mainPlan Fixes.all d0 .rpdcp [("PDSH_REMOTE_PDCP_PATH".toList, "/env/pdcp".toList)]
+      (words ["-w", "h", "a", "b"])) = some "/env/pdcp".toList ∧
+    pathOf (mainPlan Fixes.all d0 .pdcp [] (words ["-w", "h", "a", "b"])) = some "/p".toList ∧
+    ctmoOf (effective Fixes.all d0 .dsh [("PDSH_CONNECT_TIMEOUT".toList, "7".toList)] (words ["-w", "h", "-R", "rsh", "-t", "3", "ls"])) = some 3 ∧
+    ctmoOf (effective Fixes.all d0 .dsh [("PDSH_CONNECT_TIMEOUT".toList, "7".toList)] (words ["-w", "h", "-R", "rsh", "ls"])) = some 7 ∧
+    ctmoOf (effective Fixes.all d0 .dsh [] (words ["-w", "h", "-R", "rsh", "ls"])) = some 10 := by
   decide
 
 end PdshVerif.C18
